@@ -141,6 +141,9 @@ pub struct Machine {
     /// set when the model met something outside the well-defined fragment
     pub undefined: Option<&'static str>,
     cur_line: Option<u16>,
+    /// undecorated variables / array elements of letters outside a DEFtype's range whose fate
+    /// the manual leaves open: (name, subscripts)
+    pub uncertain: Vec<(String, Option<Vec<i16>>)>,
     /// DEF line of the innermost user function in which the pending error was raised
     fn_error_line: Option<u16>,
 }
@@ -185,6 +188,7 @@ impl Machine {
             hits: Hits::default(),
             undefined: None,
             cur_line: None,
+            uncertain: vec![],
             fn_error_line: None,
         };
         m.load(p);
@@ -338,6 +342,38 @@ impl Machine {
         self.flags.fuzzy_eq |= fl.fuzzy_eq;
         self.flags.approx |= fl.approx;
         r
+    }
+
+    /// Resolve an uncertain variable by observation: it was dropped (true) or kept.
+    pub fn resolve_uncertain(&mut self, name: &str, idx: &Option<Vec<i16>>, dropped: bool) {
+        if dropped {
+            match idx {
+                None => {
+                    self.vars.remove(name);
+                }
+                Some(i) => {
+                    if let Some(a) = self.arrays.get_mut(name) {
+                        a.elems.remove(i);
+                    }
+                }
+            }
+        }
+        self.uncertain.retain(|(n, i)| !(n == name && i == idx));
+    }
+
+    /// Text PRINT would show for a stored value (kept) and for the default (dropped).
+    pub fn uncertain_texts(&self, name: &str, idx: &Option<Vec<i16>>) -> (String, String) {
+        let n = Name::new(name);
+        let def = Val::default_of(self.ty_of(&n));
+        let kept = match idx {
+            None => self.vars.get(name).cloned().unwrap_or_else(|| def.clone()),
+            Some(i) => self.arrays.get(name).and_then(|a| a.elems.get(i).cloned()).unwrap_or_else(|| def.clone()),
+        };
+        let f = |v: &Val| match v {
+            Val::Str(s) => s.clone(),
+            other => fmt_num(other),
+        };
+        (f(&kept), f(&def))
     }
 
     pub fn final_value(&mut self, e: &E) -> Res<Val> {
@@ -927,10 +963,36 @@ impl Machine {
                 for c in (*a as u8)..=(*b as u8) {
                     self.deftypes[(c - b'A') as usize] = *t;
                 }
-                // "Any existing variables not matching the new type are dropped": which ones
-                // exactly is left open by the manual; programs only use DEFtype before any store
-                if !self.vars.is_empty() || !self.arrays.is_empty() {
-                    self.undefined = Some("DEFtype after variables were stored");
+                // "Any existing variables not matching the new type are dropped": undecorated
+                // variables of the named letters whose value has another type are dropped. What
+                // happens to undecorated variables of OTHER letters is left open by the manual:
+                // those are recorded as uncertain and resolved by observation (C06) or make the
+                // case undefined (everywhere else).
+                let plain = |k: &str| !k.ends_with(|c: char| "$%!#".contains(c));
+                let in_range = |k: &str| k.chars().next().map(|c| (c as u8) >= (*a as u8) && (c as u8) <= (*b as u8)).unwrap_or(false);
+                let keys: Vec<String> = self.vars.keys().cloned().collect();
+                for k in keys {
+                    if plain(&k) && self.vars[&k].ty() != *t {
+                        if in_range(&k) {
+                            self.vars.remove(&k);
+                        } else {
+                            self.uncertain.push((k.clone(), None));
+                        }
+                    }
+                }
+                let akeys: Vec<String> = self.arrays.keys().cloned().collect();
+                for k in akeys {
+                    if !plain(&k) {
+                        continue;
+                    }
+                    let idxs: Vec<Vec<i16>> = self.arrays[&k].elems.iter().filter(|(_, v)| v.ty() != *t).map(|(i, _)| i.clone()).collect();
+                    for i in idxs {
+                        if in_range(&k) {
+                            self.arrays.get_mut(&k).unwrap().elems.remove(&i);
+                        } else {
+                            self.uncertain.push((k.clone(), Some(i)));
+                        }
+                    }
                 }
                 Ok(Ctl::Next)
             }
